@@ -168,13 +168,24 @@ def build():
         raise GenError("server_request: BADKEY arms")
 
     # ---- ServerSequence: which MAC goes back into the context
-    sa = fn_body(src, "answer_with_fudge", after="impl<K: AsRef<Key>> ServerSequence<K>")
-    i_app = sa.find("self.context.apply_signature("); i_sl = sa.find("signature_slice(")
-    if i_app < 0 or i_sl < 0:
-        raise GenError("ServerSequence::answer_with_fudge shape")
-    arg = re.sub(r"\s+", "", sa[i_app + len("self.context.apply_signature("):sa.find(")", i_app + 30) + 1])
-    full = i_app < i_sl
+    sa = re.sub(r"\s+", "", fn_body(src, "answer_with_fudge", after="impl<K: AsRef<Key>> ServerSequence<K>"))
+    if "self.context.apply_signature(mac.as_ref());letmac=self.key().signature_slice(&mac);" in sa:
+        full = True
+    elif "letmac=self.context.key().signature_slice(&mac).to_vec();self.context.apply_signature(&mac);self.key().complete_message(message,&variables,&mac)" in sa:
+        full = False
+    else:
+        raise GenError("ServerSequence::answer_with_fudge: cannot tell which MAC is applied to the context")
     defs.append(("server_seq_applies_full_mac", "bool", "true" if full else "false"))
+
+    # ---- MessageTsig::from_message: CLASS / TTL of the TSIG record
+    fm = re.sub(r"\s+", "", fn_body(src, "from_message", after="impl<'a, Octs: Octets + ?Sized> MessageTsig<'a, Octs>"))
+    chk = "ifletSome(record)=record{ifrecord.class()!=Class::ANY||record.ttl().as_secs()!=0{returnErr(TsigError::Invalid);}ifsection.next().is_some(){returnErr(TsigError::Position);}returnOk(MessageTsig{record,start});}"
+    nochk = "ifletSome(record)=record{ifsection.next().is_some(){returnErr(TsigError::Position);}returnOk(MessageTsig{record,start});}"
+    if chk in fm: defs.append(("tsig_class_ttl_checked", "bool", "true"))
+    elif nochk in fm: defs.append(("tsig_class_ttl_checked", "bool", "false"))
+    else: raise GenError("MessageTsig::from_message: unrecognised handling of a found TSIG record")
+    for a, b in (("section.next()", "TsigError::Missing"), ("map_err(|_|TsigError::ParseError)?.into_record::<Tsig<_,_>>().map_err(|_|TsigError::Invalid)?", "")):
+        if a not in fm: raise GenError("from_message: %s not found" % a)
 
     # ---- client: order of checks
     for fn, ctxfn in (("answer_first", "first_answer"), ("answer_subsequent", "signed_subsequent")):
